@@ -109,10 +109,19 @@ func setup(tier string) {
 	}
 }
 
-func outcome(rs []reporter.Report) (string, string) {
+func outcome(rs []reporter.Report) (string, string) { return outcomeOf(rs, true) }
+
+// outcomeOf renders a report list. collect=true passes it through Summary.Report first (what checkRules'
+// collector does with an arrival stream); collect=false takes the list as the summary of a finished
+// checkRules run, without folding anything again.
+func outcomeOf(rs []reporter.Report, collect bool) (string, string) {
 	var s reporter.Summary
-	for _, r := range rs {
-		s.Report(r)
+	if collect {
+		for _, r := range rs {
+			s.Report(r)
+		}
+	} else {
+		s = reporter.NewSummary(rs)
 	}
 	out, sum, err, crash := pipeline.Render(s.Reports(), checks.Information, false)
 	if crash != nil {
@@ -208,6 +217,9 @@ var Files = files
 
 // Outcome renders a report stream the way lint/ci do and appends the fail-on verdicts.
 func Outcome(rs []reporter.Report) (string, string) { return outcome(rs) }
+
+// OutcomeOfSummary renders the reports of a finished checkRules run as they are.
+func OutcomeOfSummary(rs []reporter.Report) (string, string) { return outcomeOf(rs, false) }
 
 // Tail returns the counts/exit part of an outcome.
 func Tail(s string) string { return tail(s) }
